@@ -56,6 +56,10 @@ theorem trimmed_text_cond (e : Dom) :
 theorem squeeze_trimmed_text (e : Dom) : squeeze (trim (getTextContent e)) = squeeze (tnFlat e) := by
   rw [squeeze_trim, squeeze_getTextContent]
 
+theorem runAtoms_text (run : Str) : squeeze ((runAtoms run).flatMap Atom.text) = squeeze run := by
+  unfold runAtoms
+  rw [opt_atom_text Atom.para (fun _ => rfl), squeeze_trim]
+
 mutual
 /-- Up to white space, the text the atoms of a subtree carry is the source text of the subtree. -/
 theorem atoms_src (p : Pos → Dom → Bool) (w : Bool) :
@@ -85,7 +89,8 @@ theorem atoms_src (p : Pos → Dom → Bool) (w : Bool) :
               simp only [List.flatMap_cons, List.flatMap_nil, List.append_nil, Atom.text]
               rw [squeeze_trimmed_text, hflat]
             · simp only [hcnd, if_false, Bool.false_eq_true]
-              exact atomsL_src p w kids _ lc
+              have := atomsM_src p w kids (pos.kid w tag) lc []
+              simpa [squeeze_nil] using this
           | list ord =>
             simp only []
             exact atomsL_src p w kids _ _
@@ -124,6 +129,19 @@ theorem atomsLi_src (p : Pos → Dom → Bool) (w : Bool) :
       split
       · exact atoms_src p w k kp lc
       · rfl
+theorem atomsM_src (p : Pos → Dom → Bool) (w : Bool) :
+    ∀ (ts : List Dom) (kp : Pos) (lc : LC) (run : Str),
+      squeeze ((atomsM p w kp lc ts run).flatMap Atom.text) = squeeze run ++ squeeze (srcM p w kp ts)
+  | [], kp, lc, run => by simp [atomsM, srcM, runAtoms_text, squeeze_nil]
+  | k :: ks, kp, lc, run => by
+      simp only [atomsM, srcM]
+      by_cases hk : isInline k = true
+      · simp only [hk, if_true]
+        rw [atomsM_src p w ks kp lc _, squeeze_append, squeeze_append, squeeze_textRec, List.append_assoc]
+      · simp only [hk, if_false, Bool.false_eq_true]
+        rw [List.flatMap_append, List.flatMap_append, squeeze_append, squeeze_append, squeeze_append,
+          runAtoms_text, atoms_src p w k kp lc, atomsM_src p w ks kp lc []]
+        simp [List.append_assoc, squeeze_nil]
 end
 
 /-! ### the plain-text view up to white space -/
@@ -227,7 +245,7 @@ theorem src_agree (p q : Pos → Dom → Bool) (w : Bool) :
           · rfl
           · split
             · rfl
-            · exact srcL_agree p q w kids _ h'.2
+            · exact srcM_agree p q w kids _ h'.2
           · exact srcL_agree p q w kids _ h'.2
           · rw [srcLi_agree p q w kids _ h'.2]
           · rfl
@@ -249,6 +267,13 @@ theorem srcLi_agree (p q : Pos → Dom → Bool) (w : Bool) :
       have h' : agree p q w kp k ∧ agreeL p q w kp ks := by simpa [agreeL] using h
       simp only [srcLi]
       rw [src_agree p q w k kp h'.1, srcLi_agree p q w ks kp h'.2]
+theorem srcM_agree (p q : Pos → Dom → Bool) (w : Bool) :
+    ∀ (ts : List Dom) (kp : Pos), agreeL p q w kp ts → srcM q w kp ts = srcM p w kp ts
+  | [], kp, _ => by simp [srcM]
+  | k :: ks, kp, h => by
+      have h' : agree p q w kp k ∧ agreeL p q w kp ks := by simpa [agreeL] using h
+      simp only [srcM]
+      rw [src_agree p q w k kp h'.1, srcM_agree p q w ks kp h'.2]
 end
 
 theorem srcL_append (p : Pos → Dom → Bool) (w : Bool) (kp : Pos) (a b : List Dom) :
@@ -256,5 +281,11 @@ theorem srcL_append (p : Pos → Dom → Bool) (w : Bool) (kp : Pos) (a b : List
   induction a with
   | nil => simp [srcL]
   | cons k ks ih => simp [srcL, ih, List.append_assoc]
+
+theorem srcM_append (p : Pos → Dom → Bool) (w : Bool) (kp : Pos) (a b : List Dom) :
+    srcM p w kp (a ++ b) = srcM p w kp a ++ srcM p w kp b := by
+  induction a with
+  | nil => simp [srcM]
+  | cons k ks ih => simp [srcM, ih, List.append_assoc]
 
 end Tabula.Html
